@@ -208,7 +208,11 @@ func c20(x *mon.Ctx) {
 		retryCase{6 * time.Second, 2200 * time.Millisecond, 1, 0, 0, "", ""},
 		retryCase{6 * time.Second, 3 * time.Second, 1, 0, 0, "", ""},
 		retryCase{6 * time.Second, 2500 * time.Millisecond, -1, 0, 0, "", ""},
-		retryCase{timeout: 14 * time.Second, cap: 4500 * time.Millisecond, failures: 2}) // above the first doubling step: the SECOND wait is the one that must be capped
+		retryCase{timeout: 14 * time.Second, cap: 4500 * time.Millisecond, failures: 2}, // above the first doubling step: the SECOND wait is the one that must be capped
+		// failing attempts that take longer than the back-off's own starting value (a dial / TLS timeout): the wait after them is
+		// still a wait
+		retryCase{timeout: 20 * time.Second, cap: time.Second, failures: 2, slowFailure: 2300 * time.Millisecond},
+		retryCase{timeout: 20 * time.Second, cap: 300 * time.Millisecond, failures: 2, slowFailure: 4200 * time.Millisecond})
 	if !x.Quick() {
 		cases = append(cases, retryCase{12 * time.Second, 5 * time.Second, 2, 0, 0, "", ""}, retryCase{40 * time.Second, 9 * time.Second, 3, 0, 0, "", ""}, retryCase{30 * time.Second, 4100 * time.Millisecond, -1, 0, 0, "", ""})
 		cases = append(cases, retryCase{2 * time.Minute, 30 * time.Second, -1, 0, 0, "", ""}, retryCase{2 * time.Minute, 30 * time.Second, 3, 0, 0, "", ""})
@@ -256,6 +260,12 @@ func c20(x *mon.Ctx) {
 		// spacing
 		for k := 1; k < n && len(probs) == 0; k++ {
 			gap := r.attempts[k] - r.attempts[k-1] - c.slowFailure // start-to-start minus the time the failing attempt itself took
+			if c.cap >= 100*time.Millisecond && gap < time.Millisecond {
+				// "between failed attempts it waits": how long is the implementation's choice below the cap, but with a cap of
+				// 100 ms or more a wait of under a millisecond is no wait
+				probs = append(probs, fmt.Sprintf("no wait between failed attempts %d and %d: attempt %d started %v after attempt %d had failed (maximum retry delay %v)", k-1, k, k, gap, k-1, c.cap))
+				break
+			}
 			if gap > c.cap+slack {
 				if calm || gap-c.cap-slack > 8*r.late+slack { // far beyond anything the observed timer lateness explains
 					probs = append(probs, fmt.Sprintf("waited %v between attempts %d and %d, the maximum retry delay is %v", gap, k-1, k, c.cap))
